@@ -48,7 +48,7 @@ reg(PropertySpec(
 
 reg(PropertySpec(
     "C08", "SMC evidence is the accumulated product of incremental ratios",
-    functions=[f"{SMC}:SMCSampler.sample", "samples:SMCSamples.to_standard_samples"],
+    functions=[f"{SMC}:SMCSampler.sample", "samples:SMCSamples.to_standard_samples", f"{SMC}:SMCSampler.build_checkpoint_state"],
     lean=["SMC.lean"],
     native=_lazy("checks.native_smc", "native_C08"),
     technique="contract-based deductive verification: ghost head-population + series-sum invariants on the real SMCSampler.sample loop (z3); ratio/variance formulas in Lean; bounded native recomputation",
@@ -57,7 +57,7 @@ reg(PropertySpec(
 
 reg(PropertySpec(
     "C18", "The diagnostic history is a faithful record of the run",
-    functions=[f"{SMC}:SMCSampler.sample"],
+    functions=[f"{SMC}:SMCSampler.sample", f"{SMC}:SMCSampler.build_checkpoint_state", f"{SMC}:SMCSampler.restore_from_checkpoint"],
     native=_lazy("checks.native_smc", "native_C18"),
     technique="contract-based deductive verification: series-length and stored-population invariants on the real SMCSampler.sample loop incl. the resumed path (z3); bounded native recomputation",
     assumptions=["resumed path: the checkpoint satisfies the loop invariant of the run that wrote it (same sampling arguments), which is the invariant proved for that run",
@@ -121,7 +121,7 @@ reg(PropertySpec(
 
 reg(PropertySpec(
     "C10", "Cached per-particle log-densities always belong to the particle's coordinates",
-    functions=["samplers.mcmc:MCMCSampler.draw_initial_samples"] + MUTATES + ["samples:SMCSamples.resample", "samples:SMCSamples.to_standard_samples", "samples:BaseSamples.__getitem__",
+    functions=["samplers.mcmc:MCMCSampler.draw_initial_samples", "samplers.importance:ImportanceSampler.sample"] + MUTATES + ["samples:SMCSamples.resample", "samples:SMCSamples.to_standard_samples", "samples:BaseSamples.__getitem__",
                "samples:Samples.__getitem__", "samples:SMCSamples.__getitem__", "samples:BaseSamples.concatenate", f"{SMC}:SMCSampler.sample"],
     native=_lazy("checks.native_smc", "native_C10"),
     technique="contract-based deductive verification: representation invariant Aligned (cached field == row-wise user function of x) proved after every operation that builds a population: loop invariant of draw_initial_samples (filter, concatenate, trim, then likelihood), mutate of each kernel class, take/concat commute with row-wise functions, loop invariant of SMCSampler.sample (z3); bounded native recomputation",
@@ -131,7 +131,7 @@ reg(PropertySpec(
 
 reg(PropertySpec(
     "C17", "Prior is evaluated before likelihood on the same points; evaluations are counted",
-    functions=LOGPROBS + MUTATES + ["samplers.mcmc:MCMCSampler.draw_initial_samples"],
+    functions=LOGPROBS + MUTATES + ["samplers.mcmc:MCMCSampler.draw_initial_samples", "samplers.importance:ImportanceSampler.sample"],
     native=_lazy("checks.native_smc", "native_C17"),
     extra_static=_lazy1("checks.static_facts", "c17_callgraph"),
     technique="contract-based deductive verification: the user's likelihood is modelled by a callable that carries the call-site obligation (samples.log_prior present and equal to the prior of exactly those rows), so every path of every caller reaching it is checked; ghost evaluation counter (z3); call-graph check that the user's likelihood is only reachable through the counting wrapper; bounded native stand-in with instrumented callables",
@@ -148,4 +148,16 @@ reg(PropertySpec(
     assumptions=["assumed h5py model: create_dataset(shape, maxshape=(None,)), resize, [:] = b requires equal length; an HDF5 write that returns has completed",
                  "pickle.dump writes a function of the state's value at call time", "process kill in the middle of a write is out of scope: interruptions are exceptions raised in user callables"],
     miss=["h5py behaviour beyond the model", "ordering of config/flow writes in Aspire.sample_posterior is covered by the bounded stand-in until the Aspire contracts land"],
+))
+
+reg(PropertySpec(
+    "C11", "Resuming from any checkpoint reproduces the uninterrupted run",
+    functions=[f"{SMC}:SMCSampler.build_checkpoint_state", f"{SMC}:SMCSampler._checkpoint_extra_state", f"{SMC}:SMCSampler.restore_from_checkpoint",
+               "samplers.base:Sampler.default_file_checkpoint_callback", f"{SMC}:SMCSampler.sample"],
+    native=_lazy("checks.native_ckpt", "native_C11"),
+    extra_static=_lazy1("checks.static_facts", "c12_names"),
+    technique="contract-based deductive verification (relational): the real build_checkpoint_state is executed symbolically on an arbitrary sampler state, its payload is passed through each route (dict, pickled bytes, HDF5 file path) into the real restore_from_checkpoint, and every loop-carried variable of SMCSampler.sample (computed from the ast) is proved equal before/after; payload history must not alias live lists; resumed-path loop invariants of SMCSampler.sample (z3); bounded native fault injection with bit comparison",
+    assumptions=["pickle.loads(pickle.dumps(v)) and copy.deepcopy(v) are structurally equal copies", "A-KERNEL: the kernel is a deterministic function of its arguments and the generator state, so equality of the loop-carried state at the loop head gives equal futures",
+                 "same sampling arguments and random sources are supplied on resume (as the property states)"],
+    miss=["the resume_from_file route is covered by the bounded stand-in and by C13's configuration round trip", "kernel-internal state of third-party packages"],
 ))
